@@ -390,7 +390,9 @@ def _inline_temps_once(fn, q, ref, log):
                 # containers that are filled afterwards are objects, not values: never substitute them
                 if any(isinstance(v, (ast.List, ast.Dict, ast.Set, ast.ListComp, ast.DictComp, ast.SetComp)) for _, v in pairs):
                     continue
-                if any(_is_mutated(fn, n) for n, _ in pairs):
+                # a value that is modified through the temporary must stay an object of its own, unless the temporary is a
+                # plain alias of an attribute path (`g = sample.geometry`): then the modification reaches the same object
+                if any(_is_mutated(fn, n) and not _is_path(v) for n, v in pairs):
                     continue
                 names_used = {x.id for _, v in pairs for x in ast.walk(v) if isinstance(x, ast.Name)}
                 attrs_used = {ast.unparse(x) for _, v in pairs for x in ast.walk(v) if isinstance(x, ast.Attribute)}
@@ -424,6 +426,12 @@ def _inline_temps_once(fn, q, ref, log):
                     log.append(('inline-temp', q, n))
                 return True
     return changed
+
+
+def _is_path(v):
+    while isinstance(v, ast.Attribute):
+        v = v.value
+    return isinstance(v, ast.Name)
 
 
 def _is_mutated(fn, name):
